@@ -210,6 +210,8 @@ func families(thorough bool) []graphFamily {
 		{"elements-cyclic", refgraph.Options{Docs: 3, Defs: 2, Elements: true, Cycles: true, RefP: 0.5, Spellings: true}},
 		{"nasty-names", refgraph.Options{Docs: 2, Defs: 3, Cycles: true, RefP: 0.6, NastyNames: true, NestedPtrs: true}},
 		{"http-and-dirs", refgraph.Options{Docs: 6, Defs: 2, Elements: true, Cycles: true, RefP: 0.5, Spellings: true, HTTP: true}},
+		{"same-path-twins", refgraph.Options{Docs: 4, Defs: 2, Elements: true, Cycles: true, RefP: 0.6, Spellings: true, Twins: true}},
+		{"same-path-twins-acyclic", refgraph.Options{Docs: 4, Defs: 2, Elements: true, RefP: 0.7, Spellings: true, Twins: true}},
 	}
 }
 
